@@ -2,6 +2,7 @@
 `MV/Model/Slice.lean` and `MV/Model/Transpose.lean` both model `Chord.__call__` under the same name. -/
 import MV.Codec
 import MV.Gen.SrcSlice
+import MV.Gen.SrcDur
 open MV MV.Codec
 
 def step : List SExp → String
@@ -11,6 +12,18 @@ def step : List SExp → String
           showRes (fun (r : Melody) => toString (encMelody r))
             (if w == "src" then Src.get_melody_between m a b else getMelodyBetween m a b false)
       | _, _, _ => "bad-args"
+  | [.atom "mdur", .atom w, m] =>
+      match decMelody m with
+      | some m => toString (SExp.ofRat (if w == "src" then Src.Melody_duration m else melodyDuration m))
+      | none => "bad-args"
+  | [.atom "cdur", .atom w, c] =>
+      match decChord c with
+      | some c => showRes (fun q => toString (SExp.ofRat q)) (if w == "src" then Src.Chord_duration c else .ok c.dur)
+      | none => "bad-args"
+  | [.atom "sdur", .atom w, s] =>
+      match decScore s with
+      | some s => showRes (fun q => toString (SExp.ofRat q)) (if w == "src" then Src.Score_duration s else .ok (scoreDuration s))
+      | none => "bad-args"
   | _ => "bad-op"
 
 def main : IO Unit := runDriver step
